@@ -503,7 +503,8 @@ def run_case(case, ch: Choices) -> RunResult:
         # builder make the generated package unimportable on this tree (missing imports / MRO errors; observations outside
         # the claimed properties) — the workload stays inside what imports, apart from a small sentinel share
         sentinel = ch.chance("w.sentinel", 1, 10)
-        knobs = worlds.draw_knobs(ch, max_objects=5, max_fields=5, max_args=3, abstract=True, extensions=False, custom_scalars=sentinel)
+        knobs = worlds.draw_knobs(ch, max_objects=5, max_fields=5, max_args=3, abstract=True, extensions=False, custom_scalars=sentinel,
+                                  keyword_names=ch.chance("w.keyword_names", 1, 3))
         world = worlds.gen_world(ch, strategy="client", knobs=knobs, custom_operations=True, want_subscription=False)
         if world is not None and not sentinel:
             for k_ in ("include_all_inputs", "include_all_enums", "target_package_name", "client_name", "client_file_name",
@@ -747,7 +748,8 @@ def plan(tier, base_seed) -> Plan:
 
     def case(i):
         if i < n_corpus:
-            return {"id": "corpus-W9-%d" % i, "seed": derive_seed(base_seed, PROPERTY, "corpus", i), "params": {"corpus": "W9-custom-operations"}}
+            return {"id": "corpus-W9-%d" % i, "seed": derive_seed(base_seed, PROPERTY, "corpus", i),
+                    "params": {"corpus": ["W9-custom-operations", "W9k-custom-operations-keyword-names"][i % 2]}}
         j = i - n_corpus
         return {"id": "drawn-%d" % j, "seed": derive_seed(base_seed, PROPERTY, "drawn", j), "params": {}}
 
